@@ -19,6 +19,7 @@ and parse_list toks = match toks with
   | ")" :: r -> ([], r)
   | _ -> let (x, r) = parse toks in let (xs, r') = parse_list r in (x :: xs, r')
 let zi s = z_of_int (int_of_string s)
+let ni s = nat_of_int (int_of_string s)
 let fn_of = function
   | L [A "add"; A k] -> FAdd (zi k) | L [A "mul"; A k] -> FMul (zi k)
   | L [A "throw"; A e] -> FThrow (zi e) | L [A "throwif"; A x; A e] -> FThrowIf (zi x, zi e)
@@ -28,6 +29,13 @@ let rec ex = function
   | L [A "var"; A n] -> Var (nat_of_int (int_of_string n))
   | L [A "leaf"; A i] -> Leaf (nat_of_int (int_of_string i))
   | L [A "leafn"; A i] -> LeafN (nat_of_int (int_of_string i))
+  | L [A "sched"; A i; A c] -> Sched (ni i, ni c)
+  | L [A "withsched"; A c; e] -> Un (UWithSched (ni c), ex e)
+  (* the library's compositions: the model term is the Gallina definition *)
+  | L [A "via"; A i; A c; e] -> via (ni i) (ni c) (ex e)
+  | L [A "tvia"; A i; A c; e] -> via (ni i) (ni c) (ex e)
+  | L [A "on"; A i; A c; e] -> on (ni i) (ni c) (ex e)
+  | L [A "wsav"; A i; A c; e] -> wsa_via (ni i) (ni c) (ex e)
   | L [A "then"; f; e] -> Un (UThen (fn_of f), ex e)
   | L [A "uerr"; f; e] -> Un (UUponErr (fn_of f), ex e)
   | L [A "udone"; f; e] -> Un (UUponDone (fn_of f), ex e)
@@ -47,22 +55,30 @@ let str_fn = function
   | FThrowIf (x, e) -> "throwif(" ^ i x ^ "," ^ i e ^ ")"
 let str_out = function OVal v -> "value " ^ i v | OErr e -> "error " ^ i e | ODone -> "done"
 let render = function
-  | XT (TLeafStart (id, st, sp, q0, q1)) ->
-    Printf.sprintf "start %d stopped=%s stoppable=%s q0=%s q1=%s" (int_of_nat id) (b01 st) (b01 sp) (i q0) (i q1)
+  | XT (TLeafStart (id, st, sp, q0, q1, sch, cx)) ->
+    Printf.sprintf "start %d stopped=%s stoppable=%s q0=%s q1=%s sch=%d ctx=%d" (int_of_nat id) (b01 st) (b01 sp) (i q0) (i q1)
+      (int_of_nat sch) (int_of_nat cx)
+  | XT (TSchedStart (_, c)) -> Printf.sprintf "enq %d" (int_of_nat c)
+  | XT (TSchedDtor c) -> Printf.sprintf "sdtor %d" (int_of_nat c)
   | XT (TLeafStop id) -> Printf.sprintf "stopseen %d" (int_of_nat id)
   | XT (TCall (f, x)) -> Printf.sprintf "call %s %s" (str_fn f) (i x)
   | XT (TLeak r) -> Printf.sprintf "leak %s" (b01 r)
-  | XRoot (o, n) -> Printf.sprintf "root %s regs=%d" (str_out o) (int_of_nat n)
+  | XRoot (o, n, cx) -> Printf.sprintf "root %s regs=%d ctx=%d" (str_out o) (int_of_nat n) (int_of_nat cx)
   | XT (TLeafDtor id) -> Printf.sprintf "dtor %d" (int_of_nat id)
   | XRootDtor -> "root_dtor"
   | XSkip -> "skip"
+(* script tokens: L<id>:<k><val>[@ctx]  S[@ctx]  R<ctx> *)
 let script_of toks = List.map (fun t ->
-    if t = "S" then EvStop else
+    let (t, cx) = match String.index_opt t '@' with
+      | Some a -> (String.sub t 0 a, int_of_string (String.sub t (a + 1) (String.length t - a - 1)))
+      | None -> (t, 0) in
+    if t = "S" then EvStop (nat_of_int cx) else
+    if t.[0] = 'R' then EvRun (nat_of_int (int_of_string (String.sub t 1 (String.length t - 1)))) else
       let c = String.index t ':' in
       let id = int_of_string (String.sub t 1 (c - 1)) in
       let k = t.[c + 1] in
       let v = if String.length t > c + 2 then int_of_string (String.sub t (c + 2) (String.length t - c - 2)) else 0 in
-      EvLeaf (nat_of_int id, (match k with 'v' -> OVal (z_of_int v) | 'e' -> OErr (z_of_int v) | _ -> ODone))) toks
+      EvLeaf (nat_of_int id, (match k with 'v' -> OVal (z_of_int v) | 'e' -> OErr (z_of_int v) | _ -> ODone), nat_of_int cx)) toks
 let () =
   (* calc2 <prestop> <sexpr ...> | <script ...> *)
   Registry.register "calc2" (fun args ->
